@@ -124,3 +124,30 @@ PROPS["C18"] = dict(
     watchdog_ms=60000,
     assumptions=["decoder calls return (the `finish` step is always eventually taken); socket rebinding and process exit are runtime behaviour seen only by the harness"],
 )
+
+PROPS["C20"] = dict(
+    modules=["Proofs.C20"],
+    theorems=["Goflow.C20.send_preserves", "Goflow.C20.close_flushes_before_stop", "Goflow.C20.all_delivered",
+              "Goflow.C20.equal_keys_same_partition"],
+    generators=[dict(name="C20", quick=8, thorough=80, subseeds=4)],
+    harness=["impl"],
+    count_all=True,
+    watchdog_ms=60000,
+    level_text="PARTIAL by a wide margin: theorems cover the 30-line adapter (topic/key/value unchanged and in order; producer.Close precedes the stop of the error forwarder, as regenerated from the source) and the consequences of a stated contract of sarama's AsyncProducer; delivery, retries and the error stream live in sarama's runtime and are exercised against an in-process mock broker (batches of 1..2000, flush settings, hashing on/off, produce-error and broker-closed fault scripts), not proved.",
+    assumptions=["sarama AsyncProducer contract (Goflow.Conc.KafkaAdapter.Contract): every message accepted on Input() before Close is delivered exactly once unchanged when Close returns; HashPartitioner is a function of the key bytes",
+                 "the mock broker speaks the Kafka 0.11 produce protocol (transport.kafka.version=0.11.0.0 in the harness)"],
+)
+
+PROPS["C15"] = dict(
+    modules=["Proofs.C15"],
+    theorems=["Goflow.C15.decodeFlow_congr", "Goflow.C15.parallel_eq_sequential", "Goflow.C15.per_datagram_order",
+              "Goflow.C15.sflow_readOnly", "Goflow.C15.skeleton_matches"],
+    count_all=True,
+    level_text="PARTIAL: theorems take whole DecodeFlow calls as atomic steps and prove that for read-only workloads every processing order yields, per datagram, the messages of processing it alone on the prologue state (multiset equality and per-datagram order); data-race freedom and interleavings inside one call are explored with the race detector on the real code (2..32 goroutines, shared pipes), not proved.",
+    generators=[dict(name="C15", quick=6, thorough=200, subseeds=8)],
+    harness=["impl"],
+    race=["impl"],
+    impl_bin="impl-race",
+    watchdog_ms=60000,
+    assumptions=["data-race freedom is a fact about the Go memory model: it is explored with the race detector (-race build of the harness), and assumed by the theorems, whose steps are whole DecodeFlow calls"],
+)
